@@ -31,3 +31,296 @@
         kani::cover!(k == 1 && v == 0);
         kani::cover!(k == 0 && v == u64::MAX);
     }
+
+// @common
+    use crate::verif_ref::{self as vr, REntry};
+    use std::io::Cursor;
+
+    /// N symbolic entries in a fixed drawing order
+    fn any_entries<const N: usize>() -> [REntry; N] {
+        let mut e = [REntry { tile_id: 0, offset: 0, length: 1, run_length: 0 }; N];
+        let mut i = 0;
+        while i < N {
+            e[i].tile_id = kani::any();
+            e[i].offset = kani::any();
+            e[i].length = kani::any();
+            e[i].run_length = kani::any();
+            i += 1;
+        }
+        e
+    }
+
+    /// validity + the harness bound: fields fit the width class `w` (canonical LEB128 widths), runs <= max_run
+    fn assume_valid_in_class<const N: usize>(e: &[REntry; N], w: &[[usize; N]; 4], max_run: u32, tiles: bool) {
+        let raw = vr::raw_columns(e);
+        let mut i = 0;
+        while i < N {
+            kani::assume(e[i].length >= 1);
+            kani::assume(e[i].run_length <= max_run);
+            if tiles { kani::assume(e[i].run_length >= 1); } else { kani::assume(e[i].run_length == 0); }
+            if i > 0 {
+                let span = if e[i - 1].run_length == 0 { 1 } else { e[i - 1].run_length as u64 };
+                kani::assume(e[i].tile_id >= e[i - 1].tile_id && e[i].tile_id - e[i - 1].tile_id >= span);
+            }
+            kani::assume(e[i].tile_id <= u64::MAX - 8);
+            kani::assume(e[i].offset <= u64::MAX - (1u64 << 33));
+            let mut c = 0;
+            while c < 4 {
+                kani::assume(raw[c][i] >= vr::class_lo(w[c][i]) && raw[c][i] <= vr::class_hi(w[c][i]));
+                c += 1;
+            }
+            i += 1;
+        }
+    }
+
+    fn put_dir<const N: usize, const M: usize>(img: &mut [u8; M], at: usize, e: &[REntry; N], w: &[[usize; N]; 4]) -> usize {
+        let raw = vr::raw_columns(e);
+        vr::put_columns(img, at, &raw, w)
+    }
+
+    fn in_range(r: &(Bound<u64>, Bound<u64>), t: u64) -> bool {
+        let lo_ok = match r.0 { Bound::Included(a) => t >= a, Bound::Excluded(a) => t > a, Bound::Unbounded => true };
+        let hi_ok = match r.1 { Bound::Included(b) => t <= b, Bound::Excluded(b) => t < b, Bound::Unbounded => true };
+        lo_ok && hi_ok
+    }
+
+    /// expected map content for probe t over a flat list of tile entries (first match; entries are disjoint)
+    fn expect<const N: usize>(e: &[REntry; N], t: u64) -> Option<(u64, u32)> {
+        match vr::ref_find(e, N, t) { Some(i) => Some((e[i].offset, e[i].length)), None => None }
+    }
+
+    fn got(m: &HashMap<u64, OffsetLength, RandomState>, t: u64) -> Option<(u64, u32)> {
+        match m.get(&t) { Some(v) => Some((v.offset, v.length)), None => None }
+    }
+
+// @common
+    /// Walker harnesses replace `Directory::from_reader` by this stub (the parser itself is checked under C05/C08):
+    /// the image holds one TAG byte at the start of every directory; the stub reads the byte at the reader's
+    /// current position, checks that the requested length is the one the harness declared for that directory and
+    /// returns the harness' symbolic entry list for it. A walker that seeks to a wrong offset or passes a wrong
+    /// length therefore gets an error (or the wrong directory) and fails the comparison with the reference.
+    static mut DIRS: [[REntry; 2]; 3] = [[REntry { tile_id: 0, offset: 0, length: 1, run_length: 0 }; 2]; 3];
+    static mut DIR_LEN: [u64; 3] = [0; 3];
+    static mut STUB_CALLS: u32 = 0;
+
+    fn stub_from_reader(input: &mut impl Read, length: u64, compression: Compression) -> Result<Directory> {
+        let mut b = [0u8; 1];
+        let n = input.read(&mut b)?;
+        unsafe { STUB_CALLS += 1; }
+        if n != 1 || b[0] == 0 || b[0] > 3 || compression != Compression::None {
+            return Err(std::io::Error::from(std::io::ErrorKind::InvalidData));
+        }
+        let k = (b[0] - 1) as usize;
+        let mut v = Vec::with_capacity(2);
+        let mut j = 0;
+        while j < 3 {
+            if j == k {
+                if length != unsafe { DIR_LEN[j] } {
+                    return Err(std::io::Error::from(std::io::ErrorKind::InvalidData));
+                }
+                let d = unsafe { DIRS[j] };
+                v.push(crate::Entry { tile_id: d[0].tile_id, offset: d[0].offset, length: d[0].length, run_length: d[0].run_length });
+                v.push(crate::Entry { tile_id: d[1].tile_id, offset: d[1].offset, length: d[1].length, run_length: d[1].run_length });
+            }
+            j += 1;
+        }
+        Ok(Directory::from(v))
+    }
+
+    /// Value mode of an instance: 0 = offsets symbolic / lengths concrete, 1 = lengths symbolic / offsets concrete.
+    /// (With BOTH fields of both entries symbolic CBMC's propositional reduction of the walker harness exceeds
+    /// 40 GB - measured; each field alone takes seconds. The walker never combines an offset with a length.)
+    fn fix_values(e: &mut [REntry; 2], mode: u8, salt: u64) {
+        if mode == 0 {
+            e[0].length = 2 + salt as u32;
+            e[1].length = 4 + salt as u32;
+        } else {
+            e[0].offset = 11 + salt;
+            e[1].offset = 3 + salt;
+        }
+    }
+
+    /// spec validity of a two-entry directory + harness bound on run lengths
+    fn assume_dir(e: &[REntry; 2], tiles: bool, max_run: u32) {
+        let mut i = 0;
+        while i < 2 {
+            kani::assume(e[i].length >= 1);
+            if tiles { kani::assume(e[i].run_length >= 1 && e[i].run_length <= max_run); } else { kani::assume(e[i].run_length == 0); }
+            kani::assume(e[i].tile_id <= u64::MAX - 8);
+            i += 1;
+        }
+        let span = if e[0].run_length == 0 { 1 } else { e[0].run_length as u64 };
+        kani::assume(e[1].tile_id >= e[0].tile_id && e[1].tile_id - e[0].tile_id >= span);
+    }
+
+// @h id=H3.1a-m$m prop=C03 rep="m:0-1" quick="0-1" cap=900 mem=20 unwind=5 uw="rec:read_dir_rec=1;read_dir_rec=3" stubs="Directory::from_reader -> tag-byte stub returning the harness' symbolic directory for the position/length requested (parser checked under C05/C08)" bounds="root-only directory of 2 tile entries: any ids, any (shared, decreasing, overlapping) offsets, any lengths, run lengths 1..2 (<= 4 tiles); root at a non-zero offset; probe id any u64; recursion bound 1 (no pointer present)"
+    /// the full walk yields exactly the entry whose run covers the probe id (offset and length as stored), nothing for any other id
+    #[kani::proof]
+    #[kani::stub(crate::directory::Directory::from_reader, stub_from_reader)]
+    fn h3_1a_full_root_only_m$m() {
+        let mut e = any_entries::<2>();
+        let t: u64 = kani::any();
+        let rlen: u64 = 5; // concrete: a symbolic length makes the stub's error branch (and io::Error drop glue) feasible for symex
+        assume_dir(&e, true, 2);
+        fix_values(&mut e, $m, 0);
+        let mut img = [0u8; 8];
+        img[3] = 1; // root directory (tag 1) at offset 3
+        unsafe { DIRS[0] = e; DIR_LEN[0] = rlen; }
+        let full = read_directories(&mut Cursor::new(&img[..]), Compression::None, (3, rlen), 0, ..);
+        assert!(full.is_ok());
+        let full = full.unwrap();
+        assert!(got(&full, t) == expect(&e, t));
+        kani::cover!(got(&full, t).is_some());
+        kani::cover!(got(&full, t).is_none());
+        kani::cover!(e[0].run_length == 2 && t == e[0].tile_id + 1 && got(&full, t).is_some());
+        kani::cover!($m != 0 || e[1].offset < e[0].offset);
+        kani::cover!($m != 0 || e[1].offset == e[0].offset);
+        kani::cover!($m != 1 || e[1].length == u32::MAX);
+        kani::cover!(e[1].tile_id > (1u64 << 62));
+        std::mem::forget(full);
+    }
+
+// @h id=H11.2-m$m prop=C11 rep="m:0-1" quick="0-1" cap=900 mem=20 unwind=5 uw="rec:read_dir_rec=1;read_dir_rec=3" stubs="Directory::from_reader -> tag-byte stub (see H3.1a)" bounds="root-only directory of 2 tile entries (any ids/offsets/lengths, run lengths 1..2); filter = every combination of {Included,Excluded,Unbounded}^2 with any u64 endpoints (empty, inverted, 0, u64::MAX included); probe id any u64. 'Full opening' is the reference expectation that H3.1a proves the unfiltered walk equal to"
+    /// range-filtered walk == full walk restricted to the range, for a symbolic probe id; never an error where the full walk succeeds
+    #[kani::proof]
+    #[kani::stub(crate::directory::Directory::from_reader, stub_from_reader)]
+    fn h11_2_partial_root_only_m$m() {
+        let mut e = any_entries::<2>();
+        let ks: u8 = kani::any();
+        let ke: u8 = kani::any();
+        let a: u64 = kani::any();
+        let b: u64 = kani::any();
+        let t: u64 = kani::any();
+        let rlen: u64 = 5; // concrete: a symbolic length makes the stub's error branch (and io::Error drop glue) feasible for symex
+        kani::assume(ks < 3 && ke < 3);
+        assume_dir(&e, true, 2);
+        fix_values(&mut e, $m, 0);
+        let mut img = [0u8; 8];
+        img[3] = 1;
+        unsafe { DIRS[0] = e; DIR_LEN[0] = rlen; }
+        let range = (mk_bound(ks, a), mk_bound(ke, b));
+        let part = read_directories(&mut Cursor::new(&img[..]), Compression::None, (3, rlen), 0, range);
+        assert!(part.is_ok());
+        let part = part.unwrap();
+        let want = if in_range(&range, t) { expect(&e, t) } else { None };
+        assert!(got(&part, t) == want);
+        kani::cover!(in_range(&range, t) && got(&part, t).is_some());
+        kani::cover!(!in_range(&range, t) && expect(&e, t).is_some());
+        kani::cover!(ke == 1 && b == 0);
+        kani::cover!(ks == 1 && a == u64::MAX);
+        kani::cover!(ks == 0 && ke == 0 && a > b);
+        kani::cover!(e[0].run_length == 2 && t == e[0].tile_id + 1 && got(&part, t).is_some());
+        std::mem::forget(part);
+    }
+
+// @common
+    /// shared set-up of the two-leaf image: returns (flat entries, leaf_dir_offset, root length)
+    fn two_leaf_image(img: &mut [u8; 32], mode: u8) -> ([REntry; 4], u64, u64) {
+        let mut l0 = any_entries::<2>();
+        let mut l1 = any_entries::<2>();
+        // concrete layout: leaf section at 10, leaves in reverse order with a gap (leaf 0 at +7, leaf 1 at +1)
+        let ldo: u64 = 10;
+        let o0: u64 = 7;
+        let o1: u64 = 1;
+        let pl0: u32 = 6;
+        let pl1: u32 = 9;
+        assume_dir(&l0, true, 1);
+        assume_dir(&l1, true, 1);
+        kani::assume(l1[0].tile_id > l0[1].tile_id);
+        fix_values(&mut l0, mode, 0);
+        fix_values(&mut l1, mode, 20);
+        kani::assume(pl0 >= 1 && pl1 >= 1);
+        let root = [
+            REntry { tile_id: l0[0].tile_id, offset: o0, length: pl0, run_length: 0 },
+            REntry { tile_id: l1[0].tile_id, offset: o1, length: pl1, run_length: 0 },
+        ];
+        img[2] = 1; // root: tag 1 at offset 2
+        let mut j = 8usize;
+        while j < 24 {
+            if j as u64 == ldo + o0 { img[j] = 2; }
+            if j as u64 == ldo + o1 { img[j] = 3; }
+            j += 1;
+        }
+        let rlen: u64 = 5;
+        unsafe {
+            DIRS[0] = root; DIR_LEN[0] = rlen;
+            DIRS[1] = l0; DIR_LEN[1] = pl0 as u64;
+            DIRS[2] = l1; DIR_LEN[2] = pl1 as u64;
+        }
+        ([l0[0], l0[1], l1[0], l1[1]], ldo, rlen)
+    }
+
+// @h id=H3.1b-m$m prop=C03 rep="m:0-1" quick="0-1" cap=1500 mem=24 unwind=5 uw="rec:read_dir_rec=2;read_dir_rec=3;two_leaf_image=17" stubs="Directory::from_reader -> tag-byte stub (see H3.1a)" bounds="root of 2 leaf pointers (pointer lengths 6 and 9) + 2 leaves of 2 tile entries each, run length 1 (4 tiles), leaf section at offset 10 after a gap, leaves at pointer offsets 7 and 1 (reverse order, gap) in a 32-byte image (layout concrete: a symbolic layout makes the parser stub's error branch feasible for symex and exhausts 24 GB); probe any u64; recursion bound 2 (depth-2 tree)"
+    /// nested leaf directories: the walk finds each leaf at leaf-section offset + pointer offset and yields exactly the addressed entries
+    #[kani::proof]
+    #[kani::stub(crate::directory::Directory::from_reader, stub_from_reader)]
+    fn h3_1b_full_two_leaves_m$m() {
+        let mut img = [0u8; 32];
+        let (flat, ldo, rlen) = two_leaf_image(&mut img, $m);
+        let t: u64 = kani::any();
+        let full = read_directories(&mut Cursor::new(&img[..]), Compression::None, (2, rlen), ldo, ..);
+        assert!(full.is_ok());
+        let full = full.unwrap();
+        assert!(got(&full, t) == expect(&flat, t));
+        kani::cover!(got(&full, t).is_some() && t == flat[3].tile_id);
+        kani::cover!(got(&full, t).is_some() && t == flat[0].tile_id);
+        kani::cover!(got(&full, t).is_none());
+        std::mem::forget(full);
+    }
+
+// @h id=H11.3-m$m prop=C11 rep="m:0-1" quick="0-1" cap=1500 mem=24 unwind=5 uw="rec:read_dir_rec=2;read_dir_rec=3;two_leaf_image=17" stubs="Directory::from_reader -> tag-byte stub (see H3.1a)" bounds="the two-leaf tree of H3.1b; filter = all 9 bound-kind combinations, any u64 endpoints; probe any u64"
+    /// leaf directories beyond the range end are skipped and the others walked: partial == full restricted to the range (skip branch taken and not taken)
+    #[kani::proof]
+    #[kani::stub(crate::directory::Directory::from_reader, stub_from_reader)]
+    fn h11_3_partial_two_leaves_m$m() {
+        let mut img = [0u8; 32];
+        let (flat, ldo, rlen) = two_leaf_image(&mut img, $m);
+        let ks: u8 = kani::any();
+        let ke: u8 = kani::any();
+        let a: u64 = kani::any();
+        let b: u64 = kani::any();
+        let t: u64 = kani::any();
+        kani::assume(ks < 3 && ke < 3);
+        let range = (mk_bound(ks, a), mk_bound(ke, b));
+        let part = read_directories(&mut Cursor::new(&img[..]), Compression::None, (2, rlen), ldo, range);
+        assert!(part.is_ok());
+        let part = part.unwrap();
+        let want = if in_range(&range, t) { expect(&flat, t) } else { None };
+        assert!(got(&part, t) == want);
+        let end_inc = match range.1 { Bound::Included(x) => x, Bound::Excluded(x) => x.saturating_sub(1), Bound::Unbounded => u64::MAX };
+        kani::cover!(flat[2].tile_id > end_inc && flat[0].tile_id <= end_inc);   // second leaf skipped
+        kani::cover!(flat[2].tile_id == end_inc && got(&part, flat[2].tile_id).is_some()); // boundary: not skipped
+        kani::cover!(got(&part, t).is_some() && t == flat[3].tile_id);
+        std::mem::forget(part);
+    }
+
+// @h id=H8.4 prop=C08 tier=quick cap=1500 mem=24 unwind=7 uw="read_dir_rec=3" checks=std stubs="Directory::from_reader -> tag-byte stub (see H11.2)" bounds="directories of 2 entries with arbitrary fields (any mix of leaf pointers and tile entries with run length <= 1, any pointer offsets and lengths, any leaf_dir_offset in u64) over an image in which every position may hold any directory tag: arbitrary pointer graphs incl. self-loops and 2-cycles; recursion bound 7 > the walk's depth limit"
+    /// hostile leaf pointers (cycles, long chains, offsets near 2^64) are answered with an error or a value: no crash, no unbounded recursion
+    #[kani::proof]
+    #[kani::stub(crate::directory::Directory::from_reader, stub_from_reader)]
+    fn h8_4_hostile_pointer_graph() {
+        let d0 = any_entries::<2>();
+        let d1 = any_entries::<2>();
+        let ldo: u64 = kani::any();
+        let t0: u8 = kani::any();
+        let t1: u8 = kani::any();
+        let t2: u8 = kani::any();
+        let mut i = 0;
+        while i < 2 {
+            kani::assume(d0[i].run_length <= 1 && d1[i].run_length <= 1);
+            i += 1;
+        }
+        kani::assume(t0 <= 2 && t1 <= 2 && t2 <= 2);
+        let img = [1u8, t0, t1, t2];
+        unsafe {
+            DIRS[0] = d0; DIR_LEN[0] = 1;
+            DIRS[1] = d1; DIR_LEN[1] = d0[0].length as u64;
+        }
+        let r = read_directories(&mut Cursor::new(&img[..]), Compression::None, (0, 1), ldo, ..);
+        kani::cover!(r.is_err());
+        kani::cover!(r.is_ok());
+        kani::cover!(d0[0].run_length == 0 && ldo == 0 && d0[0].offset == 0 && d0[0].length == 1 && r.is_err()); // self loop
+        kani::cover!(ldo == u64::MAX && d0[0].run_length == 0 && d0[0].offset == 5 && r.is_err());
+        kani::cover!(unsafe { STUB_CALLS } >= 4);
+        std::mem::forget(r);
+    }
